@@ -12,6 +12,7 @@ Pairs == << <<"streq", a>>, <<"streq", aA>>, <<"contains", a>>, <<"contains", aA
             <<"within", <<97, 32, 98, 32, 97, 65>> >>,
             <<"eq", one>>, <<"eq", m1>>, <<"eq", zero>>, <<"eq", ex>>, <<"ge", one>>, <<"ge", m1>>, <<"gt", zero>>, <<"gt", m1>>, <<"le", one>>, <<"le", m1>>, <<"lt", one>>, <<"lt", zero>>,
             <<"pm", <<97, 98, 32, 65, 97>> >>, <<"pm", <<97>> >>, <<"pm", <<98, 97, 98>> >>,
+            <<"pm", <<97, 65, 32, 32, 98, 98>> >>, <<"pm", <<97, 255, 98>> >>, <<"pm", <<195, 169>> >>,
             <<"validateUrlEncoding", << >> >>, <<"validateUtf8Encoding", << >> >> >>
 ByteRanges == << {97, 98, 0}, {65}, 0..255, 1..254 >>       \* "97-98,0" "65" "0-255" "1-254"
 
@@ -51,4 +52,5 @@ Emit == /\ PrintT(<<"OUT", ToJson([in |-> s, row |-> Row, br |-> BrRow])>>)
         /\ (s = << >> => PrintT(<<"OUT", ToJson([cidr |-> CidrTable])>>))
         /\ (s = << >> => PrintT(<<"OUT", ToJson([wide |-> WideTable])>>))
         /\ (s = << >> => PrintT(<<"OUT", ToJson([cap |-> CapTable])>>))
+        /\ (s = << >> => PrintT(<<"OUT", ToJson([rxdot |-> RxDotTable])>>))
 =============================================================================
